@@ -82,7 +82,8 @@ def evaluate(case):
 
 def evaluate_cli(case):
     ks = case["kinds"]
-    doc = G.document(ks, "none")
+    clip = case.get("clip", False)
+    doc = G.document(ks, "none", viewbox=case.get("viewbox") or "0 0 100 100")
     at, dr, to_file = case["allow_text"], case["drop"], case["to_file"]
     with tempfile.TemporaryDirectory() as td:
         inp = os.path.join(td, "in.svg")
@@ -94,19 +95,28 @@ def evaluate_cli(case):
             cmd.append("--allow_text")
         if dr:
             cmd.append("--drop_unsupported")
-        if to_file:
+        if clip:
+            cmd.append("--clip_to_viewbox")
+        if to_file == "stdin":
+            cmd.remove(inp)
+        elif to_file:
             cmd += ["--output_file", outp]
         env = dict(os.environ)
-        p = subprocess.run(cmd, stdout=subprocess.PIPE, stderr=subprocess.PIPE, text=True, env=env, timeout=120)
+        p = subprocess.run(cmd, stdout=subprocess.PIPE, stderr=subprocess.PIPE, text=True, env=env, timeout=120, input=doc if to_file == "stdin" else None)
         if p.returncode != 0:
             return {"out": "cli-failed", "nt": None, "viol": []}
-        if to_file:
+        if to_file is True:
             out = open(outp).read() if os.path.exists(outp) else ""
         else:
             out = p.stdout
-    why = R4.validate(out, ndigits=3, allow_text=at)
+    # (cutting at the viewBox border produces new, unrounded coordinates: rounding is not judged with that flag)
+    why = R4.validate(out, ndigits=None if clip else 3, allow_text=at)
     # the CLI must produce what the library call produces with the same options
     o, lib = convert(doc, 3, at, dr)
+    if o == "returned" and clip:
+        from picosvg.svg import SVG
+
+        lib = SVG.fromstring(lib).clip_to_viewbox(inplace=True).tostring()
     if o == "returned":
         import re
 
@@ -161,6 +171,13 @@ def cli_cases(tier):
         for at, dr in CORNERS:
             for to_file in (False, True):
                 yield {"kinds": [k], "allow_text": at, "drop": dr, "to_file": to_file}
+    # --clip_to_viewbox: group kinds under viewBoxes that leave some children outside / cut others; stdin input
+    groups = [k for k in G.kinds("groups") if k not in G.NESTED and k.split(":")[0] in ("gop", "gopxf", "gclip", "g")]
+    nested = [k for k in G.kinds("groups") if k in G.NESTED]
+    pool = groups + (nested if tier == "thorough" else nested[::12])
+    for k in pool:
+        for vb in ("0 0 30 30", "40 40 60 60", "0 0 100 12", "0 0 100 100"):
+            yield {"kinds": [k], "allow_text": False, "drop": True, "to_file": "stdin" if vb == "0 0 100 12" else False, "clip": True, "viewbox": vb}
 
 
 def run(run):
